@@ -187,9 +187,7 @@ theorem adds_mkCell (σ : Store) (a : Args) (ls : List Nat) : Adds σ (mkCell σ
     refine Adds.then_eq ?_ (kidsEq_setAsParent _ _ _)
     refine adds_alloc' σ _ _ ?_
     simp [Node.allKids, docInit, physInit, structInit, Node.addType]
-  split
-  · exact h1
-  · exact h1.then_eq (kidsEq_upd _ _ _ (addTypeIf_fields _))
+  exact h1.then_eq (kidsEq_upd _ _ _ (addTypeIf_fields _))
 
 theorem adds_regionInit (σ : Store) (cls : Cls) (a : Args) (dt : List String) (nd0 : Node) :
     Adds σ (regionInit σ cls a dt nd0) σ.size
